@@ -393,7 +393,7 @@ FIXED_HISTORIES = [
     # prefix: /a must not fire the matching responder /ab
     [['create', '/ab', True, None, None, None, fn(0)], ['create', '/a', True, None, None, None, fn(1)],
      ['dgram', enc_msg('/a', [])[0].hex(), SENDERS[0], 0], ['dgram', enc_msg('/a*', [])[0].hex(), SENDERS[0], 0]],
-    # matching dispatcher: order is by path, then registration
+    # matching dispatcher: ONE registration order across paths
     [['create', '/a', True, None, None, None, fn(0)], ['create', '/b', True, None, None, None, fn(1)], ['create', '/a', True, None, None, None, fn(2)],
      ['dgram', enc_msg('/?', [])[0].hex(), SENDERS[0], 0], ['cmd_period'], ['dgram', enc_msg('/?', [])[0].hex(), SENDERS[0], 0]],
     # one function object in two responders, then function replacement / one_shot / disable on the second
@@ -456,8 +456,9 @@ def inv_term(x):
 
 def state_term(st):
     tbl = lambda t: '[%s]' % '; '.join('(%s, [%s])' % (zl(k), '; '.join('%d%%nat' % i for i in ids)) for k, ids in t)
-    return '((%s, %s, %s, [%s]) : sstate)' % ('[%s]' % '; '.join(cbool(b) for b in st['en']), tbl(st['ex']), tbl(st['mt']),
-                                              '; '.join('%d%%nat' % i for i in st['cp']))
+    nl = lambda l: '[%s]' % '; '.join('%d%%nat' % i for i in l)
+    return '((%s, %s, %s, %s, %s, %s) : sstate)' % ('[%s]' % '; '.join(cbool(b) for b in st['en']), tbl(st['ex']), tbl(st['mt']),
+                                                    nl(st['cp']), nl(st['we']), nl(st['wm']))
 
 
 def raises_of(h):
@@ -507,14 +508,17 @@ Definition is_matching (st : dstate) (i : inv) : bool :=
 Definition split_d (st : dstate) (l : list inv) : list inv :=
   filter (fun i => negb (is_matching st i)) l ++ filter (is_matching st) l.
 (* the dispatchers' tables, the enabled flags and CmdPeriod's registry after every operation *)
-Definition sstate := (list bool * list (list Z * list nat) * list (list Z * list nat) * list nat)%type.
+Definition sstate := (list bool * list (list Z * list nat) * list (list Z * list nat) * list nat * list nat * list nat)%type.
 Definition tbl_agree (t : table) (e : list (list Z * list nat)) : bool :=
   list_eqb (fun a b => list_eqb Z.eqb (fst a) (fst b) && list_eqb Nat.eqb (snd a) (snd b))
            (map (fun kl => (fst kl, map w_id (snd kl))) t) e.
 Definition state_agree (st : dstate) (e : sstate) : bool :=
-  match e with (en, ex, mt, cp) =>
+  match e with (en, ex, mt, cp, we, wm) =>
+    let kind (b : bool) := filter (fun id => match nth_error (resps st) id with Some r => Bool.eqb (r_matching r) b | None => false end) (cmdp st) in
     list_eqb Bool.eqb (map r_enabled (resps st)) en && tbl_agree (act_exact st) ex && tbl_agree (act_match st) mt
-    && list_eqb Nat.eqb (cmdp st) cp end.
+    && list_eqb Nat.eqb (cmdp st) cp
+    (* each dispatcher's wrapped_funcs lists ITS responders in registration order (what the matching dispatcher walks) *)
+    && list_eqb Nat.eqb (kind false) we && list_eqb Nat.eqb (kind true) wm end.
 Fixpoint outs_agree (stepf : dstate -> op -> dstate * list inv) (st : dstate) (h : list op) (exp : list (list inv * sstate)) : bool :=
   match h, exp with
   | [], [] => true
@@ -700,6 +704,37 @@ def gen_reg_history(rng, n):
     return {'ops': ops, 'removes': {str(k): v for k, v in removes.items()}}
 
 
+def exhaustive_reg_histories(thorough):
+    """Small-scope exhaustive: EVERY operation sequence up to a small length over a small alphabet, per
+    registry, each followed by the observations (run / notify of everything).  Complements the random
+    mixed histories, where a particular 3-step interaction inside one registry is rare."""
+    import itertools
+    out = []
+    # NotificationCenter: one object, two message names, two listeners
+    nc = [['nc_register', 1, m, l, 2 * m + l] for m in (1, 2) for l in (1, 2)] + \
+         [['nc_unregister', 1, m, l] for m in (1, 2) for l in (1, 2)] + \
+         [['nc_unregister_msg', 1, m] for m in (1, 2)] + [['nc_unregister_obj', 1]]
+    tail = [['nc_notify', 1, 1], ['nc_notify', 1, 2]]
+    for seq in itertools.product(nc, repeat=4 if thorough else 3):
+        out.append({'ops': [list(o) for o in seq] + tail, 'removes': {}})
+    # SystemAction: two actions, with and without actions that unregister others while running
+    sa = [['sa_add', 1, 0], ['sa_add', 1, 1], ['sa_add', 2, 0], ['sa_remove', 1], ['sa_remove', 2], ['sa_remove_all'], ['sa_run']]
+    for rem in ({}, {'1': [2], '2': [2]}):
+        for seq in itertools.product(sa, repeat=4 if thorough else 3):
+            out.append({'ops': [list(o) for o in seq] + [['sa_run']], 'removes': rem})
+    # ServerAction: the default server, another server, 'default', 'all'; two actions
+    keys = [['srv', 0], ['srv', 1], 'default', 'all']
+    sv = [['sv_add', k, a, a] for k in keys for a in (1, 2)] + [['sv_remove', k, 1] for k in keys] + [['sv_remove_server', k] for k in keys]
+    tail = [['sv_run', 0], ['sv_run', 1]]
+    for seq in itertools.product(sv, repeat=3 if thorough else 2):
+        out.append({'ops': [list(o) for o in seq] + tail, 'removes': {}})
+    sv3 = [['sv_add', k, a, a] for k in (['srv', 0], 'default', 'all') for a in (1, 2)] + \
+          [['sv_remove', k, 1] for k in (['srv', 0], 'default', 'all')] + [['sv_remove_server', 'all']]
+    for seq in itertools.product(sv3, repeat=3):
+        out.append({'ops': [list(o) for o in seq] + tail, 'removes': {}})
+    return out
+
+
 def rop_term(op):
     def sk(k):
         return 'KDefault' if k == 'default' else 'KAll' if k == 'all' else '(KServer %d)' % k[1]
@@ -734,7 +769,7 @@ def rop_term(op):
 
 
 def corr_registry(ctx, c):
-    hs = [gen_reg_history(ctx.rng, ctx.rng.randint(4, 30)) for _ in range(ctx.n(240, 3000))]
+    hs = [gen_reg_history(ctx.rng, ctx.rng.randint(4, 30)) for _ in range(ctx.n(240, 3000))] + exhaustive_reg_histories(not ctx.quick)
     hs.insert(0, {'ops': [['sv_add', ['srv', 1], 1, 5], ['sv_add', ['srv', 1], 2, 6], ['sv_remove', ['srv', 1], 1], ['sv_run', 1]], 'removes': {}})
     hs.insert(1, {'ops': [['sa_add', 1, 1], ['sa_add', 2, 2], ['sa_add', 3, 3], ['sa_add', 1, 9], ['sa_run'], ['sa_run']], 'removes': {'1': [2], '3': [3]}})
     out = ctx.impl('c18_registry', {'histories': hs})['out']
@@ -746,12 +781,12 @@ def corr_registry(ctx, c):
         items.append('(%s, [%s], (%s : list (list (nat * nat))))' % (remf, '; '.join(rop_term(op) for op in h['ops']), exp))
         for op in h['ops']:
             c.count('registry-op:' + op[0])
-        if any(len(lg) >= 2 for lg in o):
+        if any(len(lg) >= 2 for lg in o) and len(h['ops']) > 6:
             c.nontriv(('reg', json.dumps(h, sort_keys=True)))
     hdr = ('From Coq Require Import List Arith. Import ListNotations.\n'
            'Require Import SC3.lib.PyNum SC3.model.Registry.\n')
     body = 'Eval vm_compute in bad_idx (fun c => logs_eqb (rrun (fst (fst c)) rinit (snd (fst c))) (snd c)) cases.'
-    bad, errs = fw.check_shards(ctx, 'reg', hdr, items, body, shard=120)
+    bad, errs = fw.check_shards(ctx, 'reg', hdr, items, body, shard=300)
     for e in errs:
         c.failures.append(Failure('correspondence', 'coq evaluation of registry cases failed: ' + e))
     for i in sorted(bad, key=lambda i: len(hs[i]['ops']))[:3]:
@@ -808,6 +843,14 @@ def corr_rt(ctx, c):
                                   signature='C18:shared-function-replace-order', found_input=True, theorem='dispatch_exact',
                                   replay={'kind': 'probe', 'probe': 'shared_replace', 'impl': pr['shared_replace'],
                                           'how': "r0 = OscFunc(F, '/p'); r1 = OscFunc(F, '/p'); r1.func = G; send '/p'"}))
+    order_defect = pr['matching_order'] != [0, 1, 2]
+    if order_defect:
+        c.failures.append(Failure('correspondence', "matching responders 0 ('/c18a'), 1 ('/c18b'), 2 ('/c18a') in this order; the message '/c18?' invokes %s, "
+                                  'registration order demands [0, 1, 2]: the matching dispatcher walks its table path by path' % pr['matching_order'],
+                                  signature='C18:matching_order_grouped_by_path', found_input=True, theorem='dispatch_matching',
+                                  replay={'kind': 'probe', 'probe': 'matching_order', 'impl': pr['matching_order'],
+                                          'how': "OscFunc.matching(f0, '/a'); OscFunc.matching(f1, '/b'); OscFunc.matching(f2, '/a'); send '/?'",
+                                          'witness': 'matching_global_order_refuted (coq/props/C18.v)'}))
     ex, aex, bx, abx = pr['exception'], pr['after_exception'], pr['baseexception'], pr['after_baseexception']
     c.notes.append('responders a, b, c on one path, b raises ValueError: invoked %s (the exception ends the clock task of that message); next '
                    'message invokes %s' % (ex['log'], aex['log']))
@@ -853,6 +896,10 @@ def corr_rt(ctx, c):
         share = hist_kind(hists[i])['share']
         if share and shared_defect:
             c.count('history-mismatch-explained-by:C18:shared-function-replace-order')
+            continue
+        mpaths = set((op[1] if op[1].startswith('/') else '/' + op[1]) for op in hists[i] if op[0] == 'create' and op[2] and op[1])
+        if order_defect and len(mpaths) >= 2:
+            c.count('history-mismatch-explained-by:C18:matching_order_grouped_by_path')
             continue
         if shown >= 4:
             break
